@@ -212,6 +212,10 @@ func oracleFan(reps int) func(FanCase, *h.Obs) *h.Fail {
 		src := renderFan(c)
 		o.Key = fmt.Sprintf("%s\n// GOMAXPROCS %v", src, c.Procs)
 		o.Note = o.Key
+		if hangSeen["fanout"] && !ctxRef.InReplay() {
+			o.Excluded = "a run that does not finish was already reported by this process"
+			return nil
+		}
 		total := c.total()
 		toChan := c.Fwd == "chan"
 		o.NonTrivial = total > c.Ch.Buf
@@ -261,6 +265,8 @@ func oracleFan(reps int) func(FanCase, *h.Obs) *h.Fail {
 								again = "that run finished"
 							}
 							fail = h.Failf("C16|stuck|fanout", "the run did not finish: %s (GOMAXPROCS=%d, repetition %d); re-run alone with 5x the bound: %s\nsource:\n%s", describeStuck(first), procs, rep, again, src)
+							fail.NoShrink = true // every re-execution of a hanging case costs up to a minute
+							hangSeen["fanout"] = true
 							return
 						}
 						o.Class("stuck_not_reproduced")
